@@ -44,6 +44,8 @@ pub enum Mode {
     /// like Full(0), but every top-level scalar carries a value derived from its field NAME, so that the
     /// checker (which knows the pinned name <-> number mapping) can tell which field ended up under which tag
     Named,
+    /// every scalar zero / empty, nothing optional or repeated present: proto3 writes nothing at all
+    Zero,
 }
 
 pub fn name_value(name: &str) -> u64 {
@@ -76,6 +78,7 @@ impl Gen for String {
         let n = match m {
             Mode::Full(_) | Mode::Named => 1 + r.below(6),
             Mode::Random => r.below(9),
+            Mode::Zero => 0,
         };
         (0..n).map(|_| match r.below(20) { 0 => '\u{00e9}', 1 => '/', 2 => '\u{4e2d}', x => (b'a' + x as u8) as char }).collect()
     }
@@ -91,6 +94,7 @@ impl Gen for Vec<u8> {
         let n = match m {
             Mode::Full(_) | Mode::Named => 1 + r.below(6),
             Mode::Random => r.below(9),
+            Mode::Zero => 0,
         };
         (0..n).map(|_| r.next() as u8).collect()
     }
@@ -100,6 +104,7 @@ impl Gen for bool {
         match m {
             Mode::Full(_) | Mode::Named => true,
             Mode::Random => r.below(2) == 1,
+            Mode::Zero => false,
         }
     }
 }
@@ -123,6 +128,7 @@ macro_rules! int_gen {
                 match m {
                     Mode::Full(_) | Mode::Named => if v == 0 { 7 } else { v },
                     Mode::Random => if r.below(5) == 0 { 0 } else { v },
+                    Mode::Zero => 0,
                 }
             }
         }
@@ -147,6 +153,7 @@ impl<T: Gen> Gen for Option<T> {
         match m {
             Mode::Full(_) | Mode::Named => Some(T::gen(r, m, d)),
             Mode::Random => if r.below(2) == 0 { None } else { Some(T::gen(r, m, d)) },
+            Mode::Zero => None,
         }
     }
 }
@@ -167,6 +174,7 @@ impl<T: Gen> Gen for Vec<T> {
         let n = match m {
             Mode::Full(_) | Mode::Named => if d <= 1 { 2 } else if d < MAXD { 1 } else { 0 },
             Mode::Random => if d >= MAXD { 0 } else { r.below(4) },
+            Mode::Zero => 0,
         };
         (0..n).map(|_| T::gen(r, m, d)).collect()
     }
@@ -182,6 +190,7 @@ pub fn gen_map<V: Gen>(r: &mut Rng, m: Mode, d: u32) -> HashMap<String, V> {
     let n = match m {
         Mode::Full(_) | Mode::Named => if d < MAXD { 1 } else { 0 },
         Mode::Random => if d >= MAXD { 0 } else { r.below(2) },
+        Mode::Zero => 0,
     };
     for _ in 0..n {
         h.insert(String::gen(r, Mode::Full(0), d), V::gen(r, m, d + 1));
@@ -205,7 +214,7 @@ pub fn fvec<T: Default>(m: Mode, d: u32) -> Vec<T> {
 pub fn pick_variant(r: &mut Rng, m: Mode, n: usize) -> usize {
     match m {
         Mode::Full(k) => k as usize % n.max(1),
-        Mode::Named => 0,
+        Mode::Named | Mode::Zero => 0,
         Mode::Random => r.below(n as u64) as usize,
     }
 }
@@ -465,6 +474,21 @@ pub fn check<T: Message + Default + PartialEq + Gen + Clone + std::fmt::Debug>(r
     let d = T::default();
     if !d.encode_to_vec().is_empty() {
         res.failures.push("default value has a non-empty encoding".into());
+    }
+    // proto3 has no explicit defaults: the instance whose every scalar is zero / empty and in which nothing
+    // optional or repeated is present encodes to nothing, and nothing decodes to exactly that instance
+    {
+        res.evals += 1;
+        let z = T::gen(r, Mode::Zero, 0);
+        let zb = z.encode_to_vec();
+        if !zb.is_empty() {
+            res.failures.push(format!("zero instance: the all-zero instance encodes as {} instead of nothing", hexs(&zb)));
+        }
+        match T::decode(&[][..]) {
+            Ok(v) if v == z => {}
+            Ok(v) => res.failures.push(format!("zero instance: the empty message decodes to {:?}, not to the all-zero instance", v).chars().take(300).collect()),
+            Err(e) => res.failures.push(format!("zero instance: the empty message does not decode: {e}")),
+        }
     }
     res
 }
